@@ -352,8 +352,10 @@ func (c *Conn) nextFrame() (int, MessageType, []byte, bool, bool, bool, error) {
 			bodyLen = int64(payloadLen)
 		}
 
+		// a control frame between the fragments of a message is not part of it.
+		isControl := (opcode == PingMessage) || (opcode == PongMessage) || (opcode == CloseMessage)
 		ml := 0
-		if c.message != nil {
+		if c.message != nil && !isControl {
 			ml = len(*c.message)
 		}
 		// bodyLen is any 63-bit value the peer chose: the sum below must not wrap.
